@@ -277,7 +277,8 @@ add("C07",
     "independent validators agree against rocfl is a violation with the object as replay.",
     "Trusted: Coq kernel, Model/Validate.v + JsonValue.v (my reading of the spec), vplib/ocflv.py (second independent reading), hashlib "
     "digests, the object abstraction in vplib/vallib.py. Object-level rules (layer 3) and document-level agreement with rocfl are "
-    "correspondence-checked only. Escaped spellings of strings - repaired by 2f36fc5 - are must-pass inputs.",
+    "correspondence-checked only. No known class is left: escaped spellings at every string position (repaired by 2f36fc5), the "
+    "same-algorithm fixity digest (b049716) and the empty logical path (95fb10c) are must-pass / must-detect regression inputs.",
     "machine-checked proof in Coq (validator = declarative spec, permutation and respelling invariance) + three-way differential on fixtures, written objects and single edits")
 
 NOT_APPLICABLE = []  # filled below for every property without a check yet
